@@ -16,7 +16,8 @@ RULE = ("instances (relevance dict, redundancy dict, relation dict, strategy, al
         "features and a non-empty pair dictionary; distinct = distinct canonical instances")
 THEOREMS = ["C17_perm", "C17_feats_are_keys", "C17_first_max", "C17_step", "C17_ranks", "C17_valid_iff",
             "C17_model_valid", "C17_check_sound", "C17_model_ok", "C17_score_def", "C17_agg_sum", "C17_agg_mean",
-            "C17_agg_median", "C17_missing_zero", "C17_present"]
+            "C17_agg_median", "C17_missing_zero", "C17_present", "C17_caller_valid", "C17_caller_feats",
+            "C17_caller_degenerate", "C17_degenerate_iff"]
 CLAUSES = ["every feature of the relevance dict exactly once (permutation, no duplicates)",
            "first feature has maximal relevance",
            "k-th feature maximises relevance - alpha*agg(redundancy with prefix) + beta*agg(relation with prefix) over the remaining",
@@ -212,7 +213,6 @@ def evaluate(cases, pid="C17"):
 PIPE_COLS = ["fa", "zb", "mc", "age", "zip", "dev", "os_", "hour", "Q1", "x9", "ua", "pos"]
 PIPE_HEADER = HEADER + """
 Definition encq (q : Q) : Z * Z := (Qnum q, Zpos (Qden q)).
-Definition degenerate (l : list Q) : bool := match l with [] => false | _ => Qeq_bool (qmin l) (qmax l) end.
 """
 PIPE_TOL = 1e-9
 
@@ -230,7 +230,8 @@ def gen_pipeline_case(rng):
     return dict(kind="pipeline", cols=cols, cards=cards, copies=copies, signal=signal, nrows=nrows,
                 dataseed=rng.randint(0, 10 ** 9), minibatch=rng.choice([50, 64, 100, 128]),
                 interaction_order=(1 if k == 2 else rng.choice([1, 2, 2, 2, 3]) if k <= 4 else rng.choice([1, 2])),
-                heuristic=rng.choice(["MI-numba-3mr", "MI-numba-3mr", "MI-numba-randomized-3mr"]), hashseed=0)
+                heuristic=rng.choice(["MI-numba-3mr", "MI-numba-3mr", "MI-numba-randomized-3mr"]),
+                parts=rng.choice([1, 1, 2, 2, 3]), hashseed=0)
 
 
 def hexfrac(h):
@@ -265,7 +266,20 @@ def evaluate_pipeline(cases, hashseed):
                 return "(Plain %d%%N)" % fid(nme)
             return "(Rel %d%%N %d%%N)" % (fid(parts[0]), fid(parts[1]))
         lbl = fid(c["cols"][-1])
-        T = "[" + "; ".join("(%s, %s, %s)" % (cname(a), cname(b), coqparse.lit(hexfrac(h))) for a, b, h in r["triplets"]) + "]"
+        # the dictionaries are built from the concatenated per-file frames BEFORE the final sort by Score: with several input
+        # files a pair occurs once per file and the LAST one wins, so the model must see the rows in the code's order
+        # (recorded by a wrapper around estimate_importances_minibatches); pairwise_ranks.tsv (sorted by Score) is the fallback
+        trip = r["triplets"]
+        seen = r.get("triplets_in_code_order")
+        order_known = False
+        if seen is not None and sorted(map(tuple, seen)) == sorted(map(tuple, trip)):
+            trip, order_known = seen, True
+        dup = len({(a, b) for a, b, _ in trip}) < len(trip)
+        if dup and not order_known:
+            out[i] = dict(status="excluded-order-unknown", clause="repeated pairs and the code's row order could not be observed",
+                          impl=r["ranks"], model=None)
+            continue
+        T = "[" + "; ".join("(%s, %s, %s)" % (cname(a), cname(b), coqparse.lit(hexfrac(h))) for a, b, h in trip) + "]"
         rows = []
         unknown = 10 ** 6
         for f, rk in r["ranks"]:
@@ -274,24 +288,24 @@ def evaluate_pipeline(cases, hashseed):
             except ValueError:
                 z = -1
             rows.append("(%d%%N, %s%%Z)" % (ids.get(f, unknown), vlib.zlit(z)))
-        exprs.append("let T := %s in let lbl := %d%%N in let d := build_inst lbl T in let r := [%s] in "
-                     "(clauses_3mr d r, valid_slackb (1 # 1000000000) d r, "
-                     "(degenerate (map snd (relevance_rows lbl T)), degenerate (map snd (redundancy_rows lbl T)), "
-                     "degenerate (map snd (relation_rows lbl T))), "
+        exprs.append("let T := %s in let lbl := %d%%N in let r := [%s] in match build_inst lbl T with None => None | Some d => "
+                     "Some (clauses_3mr d r, valid_slackb (1 # 1000000000) d r, "
                      "map (fun '(k, v) => (k, encq v)) (rel d), map (fun '(a, b, v) => (a, b, encq v)) (red d), "
-                     "map (fun '(a, b, v) => (a, b, encq v)) (rln d), ranking d)" % (T, lbl, "; ".join(rows)))
+                     "map (fun '(a, b, v) => (a, b, encq v)) (rln d), ranking d) end" % (T, lbl, "; ".join(rows)))
         where.append(i)
-        maps.append(ids)
+        maps.append((ids, dup))
     vals = vlib.coq_eval("C17p", PIPE_HEADER, exprs, shard=4) if exprs else []
-    for i, ids, v in zip(where, maps, vals):
+    for i, (ids, dup), v in zip(where, maps, vals):
         inv = {k: nme for nme, k in ids.items()}
-        c1, c2, c3, c4, slack, degs, mrel, mred, mrln, mrank = v
         r = impl[i]
-        model_rank = [inv[f] for f in mrank]
-        if any(degs):
-            out[i] = dict(status="excluded", clause="min = max in a normalised table (division by zero; outside 'finite scores')",
-                          impl=r["ranks"], model=model_rank)
+        if v is None:
+            # build_inst = None: a non-empty table with min = max; the code's normalisation is 0/0 (NaN dictionaries, empty names
+            # in 3mr_ranks.tsv): no instance, nothing the property determines
+            out[i] = dict(status="excluded", clause="min = max in a normalised table (0/0 in the code; build_inst = None)",
+                          impl=r["ranks"], model=None)
             continue
+        c1, c2, c3, c4, slack, mrel, mred, mrln, mrank = v[1]
+        model_rank = [inv[f] for f in mrank]
         # 1. the dictionaries the caller built
         bad = None
         if r.get("dicts") is not None:
@@ -320,7 +334,8 @@ def evaluate_pipeline(cases, hashseed):
             continue
         failed = [CLAUSES[k] for k, ok in enumerate((c1, c2, c3, c4)) if not ok]
         if not failed:
-            out[i] = dict(status="ok", clause=None, impl=r["ranks"], model=model_rank, dicts_seen=r.get("dicts") is not None)
+            out[i] = dict(status="ok", clause=None, impl=r["ranks"], model=model_rank, dicts_seen=r.get("dicts") is not None,
+                          repeated_keys=dup)
         elif slack:
             out[i] = dict(status="near-tie", clause="; ".join(failed), impl=r["ranks"], model=model_rank)
         else:
@@ -408,7 +423,6 @@ def check(run, replay):
         if run.tier == "thorough":
             cases.extend(exhaustive_cases(hashseed))
     ev = evaluate(cases)
-    run.oblige("correspondence:valid_3mr (Coq) accepts the implementation's data frame", True)
 
     hist = {"n_features": {}, "strategy": {}, "defaults": 0, "unique_ranking": 0, "with_ties": 0, "impl_errors": 0,
             "red_entries": {}, "alpha": {}, "beta": {}}
@@ -450,12 +464,12 @@ def check(run, replay):
         run.violation("counterexample", "C17_check (valid_3mr) on the implementation's data frame" if e["kind"] == "validator"
                       else "impl-raises", case=c, impl=e["impl"], model=e["model"], clause=e["verdict"],
                       extra={"failing_cases_in_run": nbad, "total": len(cases)})
-        run.obligations[-1] = (run.obligations[-1][0], False, "%d of %d data frames rejected" % (nbad, len(cases)))
+    run.oblige("correspondence:valid_3mr (Coq) accepts the implementation's data frame", nbad == 0,
+               "" if nbad == 0 else "%d of %d data frames rejected" % (nbad, len(cases)))
     if differs_but_unique:
         run.notes.append("harness cross-check: %d accepted data frames differ from the model although the ranking is forced" % differs_but_unique)
     # the caller
     pev = evaluate_pipeline(pipe_cases, pipe_cases[0].get("hashseed", hashseed) if pipe_cases else hashseed)
-    run.oblige("correspondence:task_ranking builds the dictionaries of build_inst and writes a valid 3mr_ranks.tsv", True)
     pstat = {}
     for c, e in zip(pipe_cases, pev):
         pstat[e["status"]] = pstat.get(e["status"], 0) + 1
@@ -466,9 +480,11 @@ def check(run, replay):
         run.violation("counterexample", "C17 caller correspondence (build_inst / valid_3mr on the ranking task's outputs)",
                       case=c, impl=e["impl"], model=e["model"], clause=e["clause"],
                       extra={"failing_pipeline_cases": len(pbad), "total": len(pipe_cases)})
-        run.obligations[-1] = (run.obligations[-1][0], False, "%d of %d pipeline runs rejected" % (len(pbad), len(pipe_cases)))
+    run.oblige("correspondence:task_ranking builds the dictionaries of build_inst and writes a valid 3mr_ranks.tsv", not pbad,
+               "" if not pbad else "%d of %d pipeline runs rejected" % (len(pbad), len(pipe_cases)))
     run.cov["pipeline_runs"] = pstat
     run.cov["pipeline_dicts_observed"] = sum(1 for e in pev if e.get("dicts_seen"))
+    run.cov["pipeline_runs_with_repeated_keys_last_row_wins"] = sum(1 for e in pev if e.get("repeated_keys") and e["status"] == "ok")
     run.cov["frames_checked_in_coq"] = len(cases) - hist["impl_errors"]
     run.cov["same_order_as_transcription"] = same_as_model
     run.cov["input_distribution"] = hist
